@@ -68,5 +68,36 @@ def normalise(beh):
             ob["calls"] = _seq(ob["calls"])
             for k in list(ob["lists"]):
                 ob["lists"][k] = _seq(ob["lists"][k])
-        ev["outc"] = [[{"inf": oc["inf"], "f": _seq(oc["f"])} for oc in _seq(go)] for go in ev["outc"]]
+        if "outc" in ev:
+            ev["outc"] = [[{"inf": oc["inf"], "f": _seq(oc["f"])} for oc in _seq(go)] for go in ev["outc"]]
     return beh
+
+
+def validate(traces, dev=(), chunk=150, timeout=1800):
+    """Engine T / O: TLC runs spec/ShampooTrace over the given traces.  Each trace: {"cfg": [...], "events": [...]};
+    Step events carry present/outc and, per group, the observed record (or {"has": false}).  Returns one result per
+    trace: {"exp": [...], "bad": [...], "mism": [...], "accepted": bool}."""
+    from concurrent.futures import ThreadPoolExecutor
+    mod = ("---- MODULE TraceRun ----\nEXTENDS ShampooTrace\nMC_Dev == "
+           + (tlc.tla_value(set(dev)) if dev else "{}") + "\n====\n")
+    cfg = "CONSTANT Deviations <- MC_Dev\n"
+    chunks = [traces[i:i + chunk] for i in range(0, len(traces), chunk)]
+    with ThreadPoolExecutor(max_workers=12) as ex:
+        outs = list(ex.map(lambda c: tlc.oracle("TraceRun", mod, c, tag="trace", cfg=cfg, timeout=timeout)[0], chunks))
+    res = [r for o in outs for r in o]
+    for r in res:
+        r["exp"] = normalise(_seq(r["exp"]))
+        r["mism"] = _seq(r["mism"])
+        r["bad"] = _seq(r["bad"])
+    return res
+
+
+def inputs_only(beh):
+    """Strip a behaviour to its inputs (for re-evaluation by TLC)."""
+    out = []
+    for ev in beh:
+        if ev["ev"] == "SetHyper":
+            out.append(dict(ev))
+        else:
+            out.append({"ev": "Step", "present": ev["present"], "outc": ev["outc"], "obs": [{"has": False} for _ in ev["present"]]})
+    return out
